@@ -140,7 +140,7 @@ class CliOut:
 CLEAN_ENV_KEYS = ("MNEMONIC", "PASSWORD", "ACCOUNT_INDEX", "HD_PATH")
 
 
-def run_cli(binary, args, stdin=None, env=None, timeout=60, stdin_chunks=None):
+def run_cli(binary, args, stdin=None, env=None, timeout=60, stdin_chunks=None, cwd=None):
     e = env_with()
     for k in CLEAN_ENV_KEYS:
         e.pop(k, None)
@@ -149,7 +149,7 @@ def run_cli(binary, args, stdin=None, env=None, timeout=60, stdin_chunks=None):
     if stdin_chunks is not None:
         # a slow producer: the input arrives in several bursts (short reads on the pipe)
         import time
-        p = subprocess.Popen([binary] + list(args), stdin=subprocess.PIPE, stdout=subprocess.PIPE, stderr=subprocess.PIPE, env=e)
+        p = subprocess.Popen([binary] + list(args), stdin=subprocess.PIPE, stdout=subprocess.PIPE, stderr=subprocess.PIPE, env=e, cwd=cwd)
         try:
             for i, c in enumerate(stdin_chunks):
                 if i:
@@ -173,7 +173,7 @@ def run_cli(binary, args, stdin=None, env=None, timeout=60, stdin_chunks=None):
         return CliOut(cls, rc, out, err)
     try:
         p = subprocess.run([binary] + list(args), input=stdin if stdin is not None else b"",
-                           capture_output=True, env=e, timeout=timeout)
+                           capture_output=True, env=e, timeout=timeout, cwd=cwd)
     except subprocess.TimeoutExpired as ex:
         return CliOut("timeout", None, ex.stdout or b"", ex.stderr or b"")
     rc = p.returncode
@@ -193,4 +193,25 @@ def cli_map(binary, runs, workers=NCPU, timeout=60):
     if not runs:
         return []
     with ThreadPoolExecutor(max_workers=workers) as ex:
-        return list(ex.map(lambda r: run_cli(binary, r["args"], r.get("stdin"), r.get("env"), r.get("timeout", timeout), r.get("stdin_chunks")), runs))
+        return list(ex.map(lambda r: run_cli(binary, r["args"], r.get("stdin"), r.get("env"), r.get("timeout", timeout), r.get("stdin_chunks"), r.get("cwd")), runs))
+
+
+def option_names(binary):
+    """every long option name of every (sub)command, from the binary's own --help output"""
+    import re
+    seen, names, todo = set(), set(), [[]]
+    while todo:
+        path = todo.pop()
+        if tuple(path) in seen or len(path) > 3:
+            continue
+        seen.add(tuple(path))
+        r = run_cli(binary, path + ["--help"], timeout=20)
+        text = r.stdout.decode("utf8", "replace")
+        names.update(re.findall(r"--([a-z0-9][a-z0-9-]*)", text))
+        m = re.search(r"(?:SUBCOMMANDS|Commands):\n((?:\s+\S.*\n)+)", text)
+        if m:
+            for line in m.group(1).splitlines():
+                w = line.split()
+                if w and w[0] != "help" and re.fullmatch(r"[a-z][a-z0-9-]*", w[0]):
+                    todo.append(path + [w[0]])
+    return sorted(names - {"help", "version"})
